@@ -138,6 +138,11 @@ func (state *RuntimeState) getPushPollTransaction(cookieValue string) (pushPollT
 	state.Mutex.Lock()
 	defer state.Mutex.Unlock()
 	value, ok := state.vipPushCookie[cookieValue]
+	if ok && value.ExpiresAt.Before(time.Now()) {
+		// An expired push transaction is as good as none (the periodic
+		// cleanup only removes it up to 30 s later).
+		return pushPollTransaction{}, false
+	}
 	return value, ok
 }
 
